@@ -13,7 +13,7 @@ RULE = ("bounded-exhaustive: element alphabets (all of C^2 for Fq2 with C={0,1,-
 ASSUMPTIONS = ["vlib/ref.py quotient-ring arithmetic is the ground truth (cross-checked against the flat Fq[w]/(w^12-2w^6+2) model)",
                "inverse / square root are checked by their defining relation (x*x^-1 = 1, s^2 = a), which determines the inverse uniquely and the root up to sign",
                "Fq2::compare is pinned to (c1, c0) lexicographic order of internal residues"]
-CONFIGS = ["asm", "c64", "c32"]
+CONFIGS = ["asm", "c64", "c32", "o0"]
 
 FIELDS = {
     "fq2": dict(n=2, size=96, add=ref.f2_add, sub=ref.f2_sub, mul=ref.f2_mul, neg=ref.f2_neg, one=ref.F2_ONE, zero=ref.F2_ZERO, frob=ref.f2_frob, bytes=ref.f2_bytes),
